@@ -17,10 +17,10 @@ EXC_DISCHARGE = [
          why="reached only when the key was present or has just been stored (falsy results return early)",
          cond="memo_store_then_read"),
     # ---- the factory trampoline --------------------------------------------------------------------
-    dict(fn="spil.sid.sid.BaseSid.__new__", text="importlib.import_module(mod)", exc="ImportError",
+    dict(fn="spil.sid.sid.BaseSid.__new__", kind="call:importlib.import_module", exc="ImportError",
          why="mod is the first element of the class constant _factory, which names a module of the program",
          cond="factory_resolves"),
-    dict(fn="spil.sid.sid.BaseSid.__new__", text="getattr(mod, fn)", exc="AttributeError",
+    dict(fn="spil.sid.sid.BaseSid.__new__", kind="call:builtins.getattr", exc="AttributeError",
          why="fn is the second element of _factory, a function defined in that module", cond="factory_resolves"),
     # ---- SpilException construction ----------------------------------------------------------------
     dict(fn="spil.util.exception.SpilException.__init__", text="args[0]", exc="LookupError",
